@@ -760,8 +760,10 @@ def _width_extra(pid):
         cov['extra']['counter_widths']['search'] = p.stdout.strip()[-300:]
         return out
     return f
-extra_C02 = _width_extra('C02')
-extra_C06 = _width_extra('C06')
+def extra_C02(rng, tier, st, cov):
+    return _width_extra('C02')(rng, tier, st, cov) + extra_C04(rng, tier, st, cov, pid='C02')
+def extra_C06(rng, tier, st, cov):
+    return _width_extra('C06')(rng, tier, st, cov) + extra_C04(rng, tier, st, cov, pid='C06')
 
 # ---- group oracles on run observations (exact) -------------------------------------------------------
 def texts_of(out):
